@@ -261,4 +261,76 @@ theorem acc_setFloor {A : List Nat} {c' : Nat} {G : Ghost} (hG : (G.mans.map (·
   subst this
   exact hnew S ⟨hS.nodup, hS.ready, hS.durable⟩
 
+/-! ### the accounting predicate threaded through the protocol phases -/
+
+/-- `Acc` plus: when nothing was published yet, nothing is covered -/
+structure AccAt (A : List Nat) (c : Nat) (G : Ghost) : Prop where
+  acc : Acc A c G
+  zero : G.floor = none → c = 0
+
+theorem acc_mono {A : List Nat} {c c' : Nat} {G : Ghost} (hle : c' ≤ c) (h : Acc A c G) : Acc A c' G := by
+  intro ms hms hab S hS
+  obtain ⟨k, hck, hkA, hp⟩ := h ms hms hab S hS
+  exact ⟨k, Nat.le_trans hle hck, hkA, hp⟩
+
+theorem accAt_mono {A : List Nat} {c c' : Nat} {G : Ghost} (hle : c' ≤ c) (h : AccAt A c G) : AccAt A c' G :=
+  ⟨acc_mono hle h.acc, fun hf => by have := h.zero hf; omega⟩
+
+theorem flatMap_congr' {α β : Type} {l : List α} {f g : α → List β} (h : ∀ a ∈ l, f a = g a) :
+    l.flatMap f = l.flatMap g := by
+  induction l with
+  | nil => rfl
+  | cons a l ih =>
+    simp only [List.flatMap_cons]
+    rw [h a List.mem_cons_self, ih (fun b hb => h b (List.mem_cons_of_mem _ hb))]
+
+/-- When every part of `L` is listed by `ms` and durable, and every listed ready part is in `L`, the admissible
+    sets of `ms` are exactly (the ids of) `L`. -/
+theorem admissible_exact {G : Ghost} {ms : ManS} {L : List PartG} (hG : (G.parts.map (·.id)).Nodup)
+    (hLnd : (L.map (·.id)).Nodup)
+    (hsub : ∀ id ∈ ms.ids, ∀ ps ∈ G.parts, ps.id = id → ps.ready = true → ps.dying = false → id ∈ L.map (·.id))
+    (hsup : ∀ p ∈ L, p.id ∈ ms.ids ∧
+      ∃ ps ∈ G.parts, ps.id = p.id ∧ ps.bat = p.batches ∧ ps.durable = true ∧ ps.dying = false)
+    {S : List Nat} (hS : Admissible G ms S) : (S.flatMap G.bat).Perm (L.flatMap (·.batches)) := by
+  have h1 : S.Perm (L.map (·.id)) := by
+    rw [List.perm_ext_iff_of_nodup hS.nodup hLnd]
+    intro id
+    constructor
+    · intro hid
+      obtain ⟨hin, ps, hps, hpid, hr, hd⟩ := hS.ready id hid
+      exact hsub id hin ps hps hpid hr hd
+    · intro hid
+      obtain ⟨p, hp, rfl⟩ := List.mem_map.1 hid
+      obtain ⟨hin, ps, hps, hpid, _, hdur, hdy⟩ := hsup p hp
+      exact hS.durable p.id hin ⟨ps, hps, hpid, hdur, hdy⟩
+  refine (h1.flatMap_right _).trans ?_
+  rw [List.flatMap_map]
+  rw [flatMap_congr' (g := fun p => p.batches)]
+  intro p hp
+  obtain ⟨_, ps, hps, hpid, hbat, _, _⟩ := hsup p hp
+  rw [← hpid, G.bat_of_mem hG ps hps, hbat]
+
+/-- a prefix of the acknowledged batches, extended by the next ones -/
+theorem perm_take_extend {A fb x y : List Nat} (hfile : fb.Perm (A.take fb.length))
+    (hmem : A.drop fb.length = x ++ y) :
+    fb.length + x.length ≤ A.length ∧ (fb ++ x).Perm (A.take (fb.length + x.length)) := by
+  have hn : fb.length ≤ A.length := by
+    have := hfile.length_eq
+    rw [List.length_take] at this
+    omega
+  have hlen : (A.drop fb.length).length = x.length + y.length := by rw [hmem]; simp
+  rw [List.length_drop] at hlen
+  refine ⟨by omega, ?_⟩
+  rw [List.take_add, hmem, List.take_left' rfl]
+  exact List.Perm.append_right _ hfile
+
+theorem admissible_parts_eq {G G' : Ghost} (h : G'.parts = G.parts) {ms : ManS} {S : List Nat}
+    (hS : Admissible G' ms S) : Admissible G ms S := by
+  refine ⟨hS.nodup, ?_, ?_⟩
+  · intro id hid; have := hS.ready id hid; rw [h] at this; exact this
+  · intro id hid hh; apply hS.durable id hid; rw [h]; exact hh
+
+theorem bat_parts_eq {G G' : Ghost} (h : G'.parts = G.parts) : G'.bat = G.bat := by
+  funext id; unfold Ghost.bat; rw [h]
+
 end Banyan.C04
